@@ -1,6 +1,7 @@
 package props
 
 import (
+	"unicode/utf16"
 	"strconv"
 	"encoding/base64"
 	"fmt"
@@ -369,6 +370,52 @@ func c09Exec(c c09Case, bases []c09Base, meta *xt.Node) c09Result {
 			res.Labels = []string{fmt.Sprintf("metadata:byte-substitution-0x%02x", c09Subs[c.Sub])}
 		}
 		spNew(doc)
+	case "charset-align":
+		// a document that DECLARES a character encoding (and is really encoded that way), with Off bytes of padding in front of the
+		// first non-ASCII characters: every alignment of a multi-byte / high-bit character against a 4096-byte buffer boundary
+		var body string
+		pad := "<!--" + strings.Repeat("x", c.Off) + "-->"
+		switch c.Base {
+		case "metadata":
+			m := msg.SPA()
+			body = strings.Replace(string(m.Tree().Render(xt.Style{})), "</md:EntityDescriptor>", "<md:Organization><md:OrganizationName xml:lang=\"de\">Universit\u00e4t Z\u00fcrich \u00d8\u00ff</md:OrganizationName><md:OrganizationDisplayName xml:lang=\"de\">\u00fc</md:OrganizationDisplayName><md:OrganizationURL xml:lang=\"de\">https://sp-a.example/\u00e9</md:OrganizationURL></md:Organization></md:EntityDescriptor>", 1)
+			if !strings.Contains(body, "Universit") {
+				panic("c09 charset-align: metadata root prefix changed")
+			}
+		case "authn-post":
+			o := c09FullAuthn()
+			o.ProviderName = "Universit\u00e4t Z\u00fcrich \u00d8\u00ff"
+			body = string(msg.Authn(o).Render(xt.Style{}))
+		}
+		if c.Key == "utf-8" || c.Key == "none" || strings.HasPrefix(c.Key, "utf-16") {
+			body = strings.Replace(body, "\u00d8\u00ff", "\u20ac\U0001F600", 1)
+		}
+		decl := "<?xml version=\"1.0\" encoding=\"" + c.Key + "\"?>"
+		if c.Key == "none" {
+			decl = ""
+		}
+		text := decl + pad + body
+		var doc []byte
+		switch {
+		case c.Key == "utf-8" || c.Key == "none":
+			doc = []byte(text)
+		case strings.HasPrefix(c.Key, "utf-16"):
+			doc = []byte{0xFF, 0xFE}
+			for _, u := range utf16.Encode([]rune(text)) {
+				doc = append(doc, byte(u), byte(u>>8))
+			}
+		default: // single-byte encodings: ISO-8859-1, windows-1252, US-ASCII (declared; the bytes are Latin-1)
+			for _, r := range text {
+				doc = append(doc, byte(r))
+			}
+		}
+		res.Labels = []string{"declared-encoding=" + c.Key, "document=" + c.Base}
+		if c.Base == "metadata" {
+			spNew(doc)
+		} else {
+			w := c09World("rsa")
+			record(w.Do(msg.PostForm("", w.Cfg.SSOPath(), "SAMLRequest", doc, "rs", nil)))
+		}
 	case "meta-cert":
 		m := msg.SPA()
 		certs := map[string]string{
@@ -540,6 +587,22 @@ func runC09(ctx Ctx) int {
 			}
 		}
 	}
+	// declared character encodings x every alignment against a 4096-byte boundary (quick: every offset for the two encodings most
+	// likely to get a converter, every 7th for the others)
+	nAlign := 0
+	for _, base := range []string{"metadata", "authn-post"} {
+		for ei, enc := range []string{"ISO-8859-1", "utf-8", "windows-1252", "US-ASCII", "utf-16", "none", "latin1", "UTF-16LE"} {
+			step := 1
+			if run.Tier != "thorough" && ei >= 2 {
+				step = 7
+			}
+			for off := 0; off <= 4200; off += step {
+				cases = append(cases, c09Case{Fam: "charset-align", Base: base, Key: enc, Off: off})
+				nAlign++
+			}
+		}
+	}
+	run.Set("charset_alignment_cases", nAlign)
 	run.Set("storage_answer_cases", nEnv)
 	deadline := devx.Deadline(map[string]time.Duration{"quick": 4 * time.Minute, "thorough": 25 * time.Minute}[run.Tier])
 	n, complete := parallel(len(cases), deadline, func(i int) {
